@@ -18,11 +18,11 @@ EXPLANATION = (
     "required (C16_optimal_solution_is_closest_flow = the full statement, relative to the solver specification; integral flows for int weights); "
     "the corrected graph has the same node and edge lists (C16_same_graph); the few-values model contains all rows of the first model plus the "
     "budget row (C16_few_values_within_budget); the E1 comparison is decided by the verified checker (C16_lp_comparison_is_verified). "
-    "Premises of the full statement checked per instance: edge list duplicate-free, weights and scalings non-negative.")
+    "Premises of the full statement are ONE extracted verified boolean (mef_domain_b, C16_optimal_solution_is_closest_flow_checked) run on every instance.")
 ASSUMPTIONS = ["HiGHS status kOptimal => returned assignment satisfies the rows within 1e-9 and is optimal (solver specification, DESIGN §4)",
                "values are integers or dyadic floats; reported error/objective compared with tolerance 1e-6",
                "exhaustive minimum over INTEGER flows (total unimodularity of the conservation system makes it the real optimum for integer data; not proved in Coq)",
-               "premises of C16_optimal_solution_is_closest_flow (duplicate-free edge list, non-negative weights and scalings) are checked on every instance"]
+               "premises of C16_optimal_solution_is_closest_flow are decided by the extracted verified check mef_domain_b on every instance"]
 TRUSTED = ["models: coq/theories/MiscEnc.v; LP read-back harness/lpdump.py, harness/e1misc.py; Python oracles harness/props.py (is_flow, flow_cost, min_l1_flow)"]
 SO = {"threads": 1}
 TOL = 1e-6
@@ -259,12 +259,14 @@ def one_case(ctx, kw, info, rep, count=True):
     except Exception as e:
         ctx.report("MinErrorFlow raised " + repr(e), rep); return None
     e1_compare(ctx, m, caps, rep)
-    # premises of the full optimality theorem (Props/C16.v C16_optimal_solution_is_closest_flow) on the model graph
-    es = list(m.G.edges())
-    prem = len(set(es)) == len(es) and all(m.G[u][v].get(m.flow_attr, 0) >= 0 for u, v in es) and all(v >= 0 for v in m.edge_error_scaling.values())
-    ctx.count("theorem_premises", "hold" if prem else "violated")
-    if not prem:
-        ctx.report("premise of C16_optimal_solution_is_closest_flow violated on a generated instance (duplicate edge / negative weight or scaling)", rep, concrete=False)
+    # premises of the full optimality theorem, decided by the extracted verified check MefChecked.mef_domain_b
+    # (Props/C16.v C16_optimal_solution_is_closest_flow_checked) on the instance the model object holds
+    dom = ctx.model.run(["mefdom " + common.toks(e1misc.mef_tokens(m, caps[0]["ids"]))])[0].strip() if caps else "?"
+    ctx.count("theorem_premises", "premises_checked")
+    if dom != "1":
+        ctx.count("theorem_premises", "premises_failed")
+        ctx.report("the instance is outside the premises of C16_optimal_solution_is_closest_flow_checked (mef_domain_b = %s): duplicate edge, "
+                   "negative or (for int) non-integral weight, or negative scaling" % dom, rep, concrete=False)
     if not ok:
         st = m.solve_statistics.get('milp_solver_status')
         if st == "kInfeasible":
